@@ -115,7 +115,7 @@ func (p *Program) conf() *confInfo {
 		addAllMethods(f.T, "Future", nil)
 	}
 	if lc.Ctx != nil {
-		if rf := fieldVar(lc.Ctx, "ref"); rf != nil {
+		if rf := lc.RefF; rf != nil {
 			addAllMethods(namedOf(rf.Type()), "ActorRef", nil)
 		}
 	}
@@ -238,10 +238,10 @@ func (p *Program) c10Scope() []c10Struct {
 	}
 	if lc.Ctx != nil {
 		add(lc.Ctx, nil)
-		if rf := fieldVar(lc.Ctx, "ref"); rf != nil {
+		if rf := lc.RefF; rf != nil {
 			add(namedOf(rf.Type()), nil)
 		}
-		if bs := fieldVar(lc.Ctx, "behaviorStack"); bs != nil {
+		if bs := lc.StackF; bs != nil {
 			add(namedOf(bs.Type()), nil)
 		}
 	}
@@ -513,14 +513,32 @@ func c10Owned(p *Program, r *Report) {
 	type owned struct {
 		rel, typ, field, lock, why string
 	}
-	table := []owned{
-		{"internal/remoting", "Mailbox", "backoff", "internal/remoting:Mailbox.connectionLock", "ExponentialBackoff keeps a plain attempt counter"},
+	// by role, not by name: the remoting mailbox's field of the retry-helper type (the receiver type of the retry loop),
+	// guarded by the mailbox's own mutex field
+	var table []owned
+	var ownedField, ownedLock *types.Var
+	if rm := p.remoting(); rm != nil && rm.MboxT != nil && rm.Try != nil && rm.Try.Signature.Recv() != nil {
+		helperT := namedOf(rm.Try.Signature.Recv().Type())
+		st := rm.MboxT.Underlying().(*types.Struct)
+		for i := 0; i < st.NumFields(); i++ {
+			if namedOf(st.Field(i).Type()) == helperT {
+				ownedField = st.Field(i)
+			}
+			if typeIs(st.Field(i).Type(), "sync", "Mutex") || typeIs(st.Field(i).Type(), "sync", "RWMutex") {
+				ownedLock = st.Field(i)
+			}
+		}
+		if ownedField != nil && ownedLock != nil {
+			table = append(table, owned{typ: rm.MboxT.Obj().Name(), field: ownedField.Name(), why: helperT.Obj().Name() + " keeps a plain attempt counter"})
+		}
+	}
+	if len(table) == 0 {
+		r.Unresolved("owned retry helper of the remoting mailbox and its mutex")
 	}
 	ci := p.conf()
 	for _, o := range table {
-		n := p.Named(o.rel, o.typ)
-		f := fieldVar(n, o.field)
-		lk := p.lockVar(o.lock)
+		f := ownedField
+		lk := ownedLock
 		if f == nil || lk == nil {
 			r.Unresolved("owned helper " + o.typ + "." + o.field)
 			continue
